@@ -187,6 +187,10 @@ def _run(ev, work, thorough):
     ev.sample(hists[1] if len(hists) > 1 else hists[0])
     ev.sample([{k: v for k, v in r.items() if k != "steps"} for r in dh[-1]])
     ev.sample(cases[-1])
+    # ---- traces of the repository's own test-suite against the per-call contract clauses (harness/checks/suite.py) ----
+    from . import suite as SUITE
+    nrec = SUITE.stage(ev, verd, work, 'C07', thorough)
+    ev.extra['suite_records_total'] = nrec
     n = verd.report(ev)
     return 1 if n else 0
 
